@@ -1,4 +1,5 @@
 // C06: plane rotations, mixing matrix, basis changes, U-sandwiches, WeightedRotation, parameter store.
+#define VF_EARLY
 #include "bind.hpp"
 #include <SQuIDS/const.h>
 using namespace vf;
@@ -188,6 +189,7 @@ int main(int argc, char** argv) {
     }
     for (unsigned u = 1; u < 6; u++) if (!ref::biteq(c.GetEnergyDifference(u), 1e-3 * (u + 1) * 7.5)) violation("GetEnergyDifference:overwritten-by-other-store", J().i("upper", u).done());
   }
+  check_early({6});
   finish();
   return 0;
 }
